@@ -232,8 +232,8 @@ def run(ck):
     ck.extra["seeds"] = {d["name"]: {"bytes": d["flen"], "sites": len(d["sites"]), "streams": len(d["streams"]),
                                       "xref_entries": len(d["ents"]), "features": s.features}
                          for d, s in zip(descs, seeds)}
-    ck.extra["budget"] = "%d * len(input) + %d executed lines per entry point; wall clock %d s" % (
-        faultrun.BUDGET_K, faultrun.BUDGET_C, faultrun.WALL)
+    ck.extra["budget"] = "%d * len(input) + %d executed lines per entry point; CPU time %d s" % (
+        faultrun.BUDGET_K, faultrun.BUDGET_C, faultrun.CPU_LIMIT)
     faults, res = enumerate_faults(ck, descs, label="Faults.tla: every (site, kind), payload position, truncation point "
                                                     "of %d seeds" % len(seeds))
     per_seed = collections.Counter(s for s, _ in faults)
@@ -255,7 +255,7 @@ def run(ck):
     ck.assumptions = [
         "one representative value per replacement kind and variant (REPR in harness/realise/faultdoc.py)",
         "work is measured in executed Python lines (sys.monitoring LINE events); time spent inside C functions is "
-        "bounded only by the %d s wall-clock alarm" % faultrun.WALL,
+        "bounded only by the %d s CPU-time alarm (ITIMER_PROF: user + system time, independent of machine load)" % faultrun.CPU_LIMIT,
         "AssertionError counts as inside the documented family (the repository's fuzz harnesses tolerate it)",
         "encrypted seeds: payload faults are applied to the payload as it stands in the file (ciphertext)",
     ]
